@@ -151,6 +151,7 @@ pub fn run_read(out: &mut Out, seed: u64, tier: &str) {
         b"1\n\nH 1_0 0 0\nC 0x1 0 0\nN 1e 0 0\nO . 0 0\nF 1.e1 .0e0 -0.\n".to_vec(),
         // a count line that disagrees with the body (stale header, appended atoms, concatenated frames)
         b"2\n\nH 0 0 0\nH 0 0 1\nH 0 0 2\n".to_vec(),
+        b"2\nC 9 9 9\nH 0 0 0\nH 0 0 1\n".to_vec(), b"1\nHe 1 2 3 looks like an atom\nH 0 0 0\n".to_vec(),
         b"0\n\nH 0 0 0\n".to_vec(),
         b"1\nframe 1\nH 0 0 0\n1\nframe 2\nH 0 0 1\n".to_vec(),
         b"7\n\nH 0 0 0\nH 0 0 1\n".to_vec(),
@@ -159,7 +160,9 @@ pub fn run_read(out: &mut Out, seed: u64, tier: &str) {
     for c in 0..n_cases {
         // a well-formed file with varied spellings
         let n = 1 + rng.below(6);
-        let mut lines: Vec<String> = vec![format!("{}", n), if rng.chance(0.5) { "".into() } else { "a comment 1 2 3".into() }];
+        // the title line is free text: sometimes empty, sometimes words and numbers, sometimes a perfectly formed atom line
+        let title: String = match rng.below(6) { 0 | 1 => "".into(), 2 => "a comment 1 2 3".into(), 3 => "O 0.0 0.0 0.0".into(), 4 => "H 1.5 -2.25 3 trailing".into(), _ => "12".into() };
+        let mut lines: Vec<String> = vec![format!("{}", n), title];
         let mut expect: Vec<(usize, [String; 3])> = vec![];
         for _ in 0..n {
             let z = 1 + rng.below(118);
